@@ -28,6 +28,7 @@ structure FieldD where
   attrs : List Attr
   identSpan : Option Span := none
   span : Span := default
+  toks : String := ""          -- the whole field, printed
   deriving Inhabited
 
 structure VariantD where
@@ -37,6 +38,7 @@ structure VariantD where
   attrs : List Attr
   discriminant : Option String   -- printed discriminant expression
   span : Span := default
+  toks : String := ""            -- the whole variant, printed
   deriving Inhabited
 
 inductive BodyD where
